@@ -248,6 +248,12 @@ pub fn scalar(rng: &mut Prng, allow_unreduced: bool, c: &mut Counters) -> Sc {
         bump(c, "scalar:unreduced_random");
         return Sc { b: B(rng.bytes(32)), k: 2 };
     }
+    if pick >= 92 {
+        bump(c, "scalar:near_l_structured");
+        let b = near_l_structured(rng);
+        let k = if refmodel::Sc::is_canonical_bytes(&b) { 1 } else if allow_unreduced && b[31] & 0x80 == 0 { 2 } else { 0 };
+        return Sc { b: B(b.to_vec()), k };
+    }
     let mut two = |e: usize| -> U256 {
         let mut w = [0u64; 4];
         w[e / 64] = 1u64 << (e % 64);
@@ -393,4 +399,41 @@ pub fn montgomery_wire(rng: &mut Prng, honest: [u8; 32], faulty: bool, c: &mut C
             [0u8; 32]
         }
     }
+}
+
+/// Structured neighbours of the group order: l (or 2^252) with individual 64-bit / 32-bit words kept, zeroed,
+/// saturated or randomised. A word-wise comparison against l that forgets a word is only visible on such values.
+pub fn near_l_structured(rng: &mut Prng) -> [u8; 32] {
+    let l = sc::l();
+    let mut w = if rng.chance(3, 4) { l.0 } else { [0, 0, 0, 1u64 << 60] };
+    if rng.coin() {
+        // 64-bit words
+        for i in 0..4 {
+            match rng.below(6) {
+                0 => w[i] = 0,
+                1 => w[i] = u64::MAX,
+                2 => w[i] = rng.next(),
+                3 => w[i] = w[i].wrapping_add(1),
+                4 => w[i] = w[i].wrapping_sub(1),
+                _ => {}
+            }
+        }
+    } else {
+        // 32-bit words
+        for i in 0..8 {
+            let sh = (i % 2) * 32;
+            let mask = 0xffff_ffffu64 << sh;
+            match rng.below(8) {
+                0 => w[i / 2] &= !mask,
+                1 => w[i / 2] |= mask,
+                2 => w[i / 2] = (w[i / 2] & !mask) | (rng.next() & mask),
+                _ => {}
+            }
+        }
+    }
+    // keep the value within 253 bits most of the time so it stays in the interesting range
+    if rng.chance(3, 4) {
+        w[3] &= (1u64 << 61) - 1;
+    }
+    U256(w).to_le_bytes()
 }
